@@ -6,7 +6,7 @@ import sys
 
 ROOT = os.path.dirname(os.path.dirname(os.path.abspath(__file__)))
 os.environ.setdefault("PYTHONPATH", "/repo/src")
-HOLD = {"C13": "check under construction: model and correspondence exist (harness/props/c13.py) but coq/Props/C13.v does not yet state the property theorems; not claimed until it does"}
+HOLD = {}
 NOT_BUILT = "no check is committed for this property yet (framework under construction; planned design in DESIGN.md section 6)"
 
 
